@@ -83,11 +83,7 @@ def plan(tier: str) -> Dict[str, Any]:
 # ---------------------------------------------------------------------------
 # workload pieces shared by A and B
 # ---------------------------------------------------------------------------
-SUSPEND_QUERIES = [
-    "$..[?@.a]", "$[?@[?@.a > 1]]", "$..[?$.a == @.a]", "$..*", "$..[*, *]", "$[*][?@..a]", "$..[?count(@.*) > 1]",
-    "$[?@.a && $..b]", "$..[?match(@.a, 'a.*')]", "$..[?search(@.b, '[ab]')]", "$[::-1]", "$..[1::-1]", "$[?@ == $[0]]",
-    "$..[?@[?@ > $.a]]", "$.a..[?@ < 5, 0]", "$[?length(@) > 1][?@ != null]",
-]
+SUSPEND_QUERIES = H.SUSPEND_QUERIES
 
 
 def _pool(rng, tier: str):
@@ -128,14 +124,7 @@ def _pool(rng, tier: str):
     return setup, docs, envs, envspecs, queries
 
 
-def _perturb(rng, v: Any) -> Any:
-    if isinstance(v, list):
-        return [_perturb(rng, x) for x in v]
-    if isinstance(v, dict):
-        return {k: _perturb(rng, x) for k, x in v.items()}
-    if rng.random() < 0.5:
-        return D.scalar(rng)
-    return v
+_perturb = H.perturb
 
 
 # ---------------------------------------------------------------------------
